@@ -196,6 +196,23 @@ def must_facts(fn, bid):
                     ok = False
             if ok:
                 out.append((cond, truth))
+    # `A && B` true gives A and B; `A || B` false gives !A and !B; negations are folded -- so that rules matching the
+    # shape of a single test keep seeing it when a refactoring merges or splits conditions
+    i = 0
+    seen = {(c.id, t) for c, t in out}
+    while i < len(out):
+        c, t = out[i]
+        i += 1
+        x = c.strip()
+        sub = []
+        if x.kind == "UnaryOperator" and x.op == "!":
+            sub = [(x.children[0], not t)]
+        elif x.kind == "BinaryOperator" and ((x.op == "&&" and t) or (x.op == "||" and not t)):
+            sub = [(x.children[0], t), (x.children[1], t)]
+        for c2, t2 in sub:
+            if (c2.id, t2) not in seen:
+                seen.add((c2.id, t2))
+                out.append((c2, t2))
     return out
 
 
